@@ -292,8 +292,16 @@ class ApiMergeStoreHandler(NbdimeHandler, APIHandler):
         # Somehow store unsolved conflicts?
         # conflicts = body['conflicts']
 
+        # Serialize before opening the file, so that an invalid submission
+        # does not truncate an existing output file
+        try:
+            content = nbformat.writes(merged_nb)
+        except Exception:
+            raise web.HTTPError(422, 'Invalid merged notebook submitted.')
+        if not content.endswith('\n'):
+            content += '\n'
         with io.open(path, 'w', encoding='utf8') as f:
-            nbformat.write(merged_nb, f)
+            f.write(content)
         self.finish()
 
 
